@@ -111,8 +111,11 @@ type gtTr struct {
 	brk        []brkTarget
 	cnt        []brkTarget // where `continue` goes
 	cfg        *gtCfg
-	loopIndex  map[ast.Node]int // for / range statements of the function, numbered in source order from 1
-	named      []string         // named results used as variables
+	loopIndex  map[ast.Node]int    // for / range statements of the function, numbered in source order from 1
+	ifaceKey   string              // sort key of the interface field last resolved by ifaceField
+	listKey    string              // ... and of the slice-of-nodes field last resolved by stringerList
+	autoFuel   map[ast.Node]string // fuel measures of loops the translator itself writes (range over a string)
+	named      []string            // named results used as variables
 	loopCache  map[ast.Node]*loopCache
 	inMutCall  bool
 	elemMut    bool // the function assigns elements of maps / slices: no local aliases of maps / slices
@@ -213,6 +216,9 @@ func (tr *gtTr) expr(e ast.Expr, env *venv) ex {
 		v := env.lookup(x.Name)
 		if v == nil {
 			gtFail("identifier %s is neither a local, a parameter nor a constant", x.Name)
+		}
+		if v.typ == tBuffer {
+			gtFail("the bytes.Buffer %s is used other than through Write*, Reset, String, Bytes, Len, template.HTMLEscape(&%s, ...)", v.goName, v.goName)
 		}
 		return tr.useVar(v)
 	case *ast.BasicLit:
@@ -471,6 +477,28 @@ func (tr *gtTr) binary(x *ast.BinaryExpr, env *venv) ex {
 		if c, ok := tr.indexRuneCmp(x, env); ok {
 			return c
 		}
+		// n.F == nil / n.F != nil for a field of /repo interface type of a struct parameter
+		if x.Op == token.EQL || x.Op == token.NEQ {
+			for _, pr := range [][2]ast.Expr{{x.X, x.Y}, {x.Y, x.X}} {
+				if id, isId := unparen(pr[1]).(*ast.Ident); isId && id.Name == "nil" && env.lookup("nil") == nil {
+					if l, ok := tr.stringerList(pr[0], env); ok {
+						// a slice field compared with nil: its own flag (a nil slice and an empty one differ in Go)
+						flag := strings.TrimSuffix(l.code, "_String") + "_nil"
+						tr.fn.addAbstract(gtAbstract{name: flag, typ: "bool", key: tr.listKey + ":0nil"})
+						if x.Op == token.NEQ {
+							return ex{code: "(negb " + flag + ")", typ: tBool}
+						}
+						return ex{code: flag, typ: tBool}
+					}
+					if flag, ok := tr.ifaceFieldNil(pr[0], env); ok {
+						if x.Op == token.NEQ {
+							return ex{code: "(negb " + flag + ")", typ: tBool}
+						}
+						return ex{code: flag, typ: tBool}
+					}
+				}
+			}
+		}
 		// interface value compared with data.Null{} / data.Undefined{}
 		if x.Op == token.EQL || x.Op == token.NEQ {
 			for _, pr := range [][2]ast.Expr{{x.X, x.Y}, {x.Y, x.X}} {
@@ -595,6 +623,9 @@ func (tr *gtTr) libCall(c *ast.CallExpr, env *venv) (pkg, name string, ok bool) 
 		return "", "", false
 	}
 	path := importOf(tr.f, q.Name)
+	if q.Name == " utf8" {
+		path = "unicode/utf8" // written by runeRange in a file that does not import the package
+	}
 	if path == "" {
 		return "", "", false
 	}
@@ -699,6 +730,9 @@ func (tr *gtTr) call(c *ast.CallExpr, env *venv) ex {
 				if len(c.Args) != 1 {
 					gtFail("len: arity")
 				}
+				if l, ok := tr.stringerList(c.Args[0], env); ok {
+					return ex{code: "(go_len " + l.code + ")", typ: basicInts["int"]}
+				}
 				a := tr.expr(c.Args[0], env)
 				switch a.typ.kind {
 				case kString, kSlice, kMap:
@@ -713,6 +747,27 @@ func (tr *gtTr) call(c *ast.CallExpr, env *venv) ex {
 				return tr.makeCall(c, env)
 			}
 			gtFail("call of %s is outside the subset", id.Name)
+		}
+	}
+	// x.String() on an element of a slice of nodes
+	if sel, ok := c.Fun.(*ast.SelectorExpr); ok && sel.Sel.Name == "String" && len(c.Args) == 0 {
+		if id, isId := unparen(sel.X).(*ast.Ident); isId {
+			if v := env.lookup(id.Name); v != nil && v.typ == tStringer {
+				o := tr.fresh()
+				return ex{binds: []gbind{{o, v.coq}}, code: o, typ: tString}
+			}
+		}
+	}
+	// b.String() / b.Bytes() / b.Len() of a local bytes.Buffer
+	if v := tr.bufferVar(c.Fun, env); v != nil && len(c.Args) == 0 {
+		cur := tr.useVar(v).code
+		switch c.Fun.(*ast.SelectorExpr).Sel.Name {
+		case "String":
+			return ex{code: cur, typ: tString}
+		case "Bytes":
+			return ex{code: cur, typ: tBytes}
+		case "Len":
+			return ex{code: "(go_len " + cur + ")", typ: basicInts["int"]}
 		}
 	}
 	// library functions
@@ -741,6 +796,17 @@ func (tr *gtTr) call(c *ast.CallExpr, env *venv) ex {
 			o := tr.fresh()
 			return ex{binds: mergeBinds(a.binds, []gbind{{o, "val_string " + a.code}}), code: o, typ: tString}
 		}
+	}
+	// re.ReplaceAllString(src, repl) on a package-level `var re = regexp.MustCompile(<constant>)` that nothing assigns:
+	// regular expressions are not modelled, the method stays a parameter re_<var>_ReplaceAllString : bstr -> bstr -> bstr
+	// (one per variable, so the ORDER of several replacements and their templates are translated), and the pattern
+	// text is emitted as src_<pkg>_<var>_pattern for the lemma that names the matcher it is instantiated with
+	if e, ok := tr.regexpMethod(c, env); ok {
+		return e
+	}
+	// n.F.M() on a field of /repo interface type of a struct parameter: the parameters m_n_F_nil / m_n_F_M
+	if e, ok := tr.ifaceFieldMethod(c, env); ok {
+		return e
 	}
 	// x.M() on a parameter of a /repo interface type: the value is a parameter of the translated function
 	if e, ok := tr.ifaceMethod(c, env); ok {
@@ -1050,6 +1116,15 @@ func (tr *gtTr) library(pkg, name string, c *ast.CallExpr, env *venv) ex {
 		pn := "f_strings_" + name
 		tr.fn.addAbstract(gtAbstract{name: pn, typ: "bstr -> bstr"})
 		return ex{binds: a.binds, code: "(" + pn + " " + a.code + ")", typ: a.typ}
+	case pkg == "text/template" && name == "HTMLEscapeString":
+		// library code, modelled by hand (Model/Escape.v): the function stays a parameter
+		need(1)
+		a := tr.expr(c.Args[0], env)
+		if a.typ.kind != kString {
+			gtFail("%s of a non-string", full)
+		}
+		tr.fn.addAbstract(gtAbstract{name: "f_template_HTMLEscapeString", typ: "bstr -> bstr"})
+		return ex{binds: a.binds, code: "(f_template_HTMLEscapeString " + a.code + ")", typ: tString}
 	case pkg == "strings" && (name == "Replace" || name == "ReplaceAll"):
 		if name == "Replace" {
 			need(4)
@@ -1100,6 +1175,8 @@ func (tr *gtTr) library(pkg, name string, c *ast.CallExpr, env *venv) ex {
 			gtFail("strconv.FormatInt of a non-integer")
 		}
 		return ex{binds: a.binds, code: "(dec_of_Z " + a.code + ")", typ: tString}
+	case pkg == "fmt" && name == "Sprintf":
+		return tr.sprintf(c, env)
 	case pkg == "strconv" && name == "Itoa":
 		need(1)
 		a := tr.expr(c.Args[0], env)
@@ -1334,6 +1411,19 @@ func (tr *gtTr) makeCall(c *ast.CallExpr, env *venv) ex {
 			}
 			return ex{code: "(@nil " + paren(t.elem.coq()) + ")", typ: t, fresh: true}
 		}
+		// make([]T, n, cap) with a small constant n over an integer type: n zeros
+		if n, isInt := intLit(c.Args[1]); isInt && n > 0 && n <= 64 && t.elem.kind == kInt {
+			for _, a := range c.Args[2:] {
+				if e := tr.expr(a, env); len(e.binds) > 0 || e.typ.kind != kInt {
+					gtFail("make: capacity argument")
+				}
+			}
+			zs := make([]string, n)
+			for i := range zs {
+				zs[i] = "0%Z"
+			}
+			return ex{code: "[" + strings.Join(zs, "; ") + "]", typ: t, fresh: true}
+		}
 	}
 	if t.kind != kMap || !t.supported() {
 		gtFail("make(%s) is outside the subset (only maps, and slices of length 0)", t.name)
@@ -1545,6 +1635,445 @@ func (tr *gtTr) ifaceMethod(c *ast.CallExpr, env *venv) (ex, bool) {
 		name := "m_" + id.Name + "_" + sel.Sel.Name
 		tr.fn.addAbstract(gtAbstract{name: name, typ: rt.coq()})
 		return ex{code: name, typ: rt}, true
+	}
+	return ex{}, false
+}
+
+// bufferVar: fun is b.M with b a local variable of type bytes.Buffer
+func (tr *gtTr) bufferVar(fun ast.Expr, env *venv) *gvar {
+	sel, ok := fun.(*ast.SelectorExpr)
+	if !ok {
+		return nil
+	}
+	id, ok := unparen(sel.X).(*ast.Ident)
+	if !ok {
+		return nil
+	}
+	if v := env.lookup(id.Name); v != nil && v.typ == tBuffer {
+		return v
+	}
+	return nil
+}
+
+// bufferWrite: is the call a write into a local bytes.Buffer?  b.WriteString(s) / b.Write(p) / b.WriteByte(c) /
+// b.Reset() / template.HTMLEscape(&b, p) (text/template).  Returns the variable's Go name and the kind of write.
+func (tr *gtTr) bufferWrite(c *ast.CallExpr, env *venv) (name, kind string, arg ast.Expr, ok bool) {
+	if v := tr.bufferVar(c.Fun, env); v != nil {
+		m := c.Fun.(*ast.SelectorExpr).Sel.Name
+		switch {
+		case (m == "WriteString" || m == "Write" || m == "WriteByte") && len(c.Args) == 1:
+			return v.goName, m, c.Args[0], true
+		case m == "Reset" && len(c.Args) == 0:
+			return v.goName, m, nil, true
+		}
+		return "", "", nil, false
+	}
+	if pkg, fn, isLib := tr.libCall(c, env); isLib && pkg == "text/template" && fn == "HTMLEscape" && len(c.Args) == 2 {
+		if u, isAddr := unparen(c.Args[0]).(*ast.UnaryExpr); isAddr && u.Op == token.AND {
+			if id, isId := unparen(u.X).(*ast.Ident); isId {
+				if v := env.lookup(id.Name); v != nil && v.typ == tBuffer {
+					return v.goName, "HTMLEscape", c.Args[1], true
+				}
+			}
+		}
+	}
+	return "", "", nil, false
+}
+
+// bufferStmt: a write into a local bytes.Buffer is an assignment of the bytes written so far
+func (tr *gtTr) bufferStmt(c *ast.CallExpr, env *venv, next cont) (gnode, bool) {
+	name, kind, arg, ok := tr.bufferWrite(c, env)
+	if !ok {
+		return nil, false
+	}
+	cur := tr.useVar(env.lookup(name)).code
+	var val ex
+	switch kind {
+	case "Reset":
+		val = ex{code: "(@nil N)", typ: tBuffer}
+	case "WriteByte":
+		a := tr.expr(arg, env)
+		if a.typ.kind != kInt {
+			gtFail("WriteByte of a %s", a.typ.name)
+		}
+		a = tr.coerce(a, basicInts["byte"], "WriteByte")
+		val = ex{binds: a.binds, code: "(" + cur + " ++ [Z.to_N " + a.code + "])", typ: tBuffer}
+	case "HTMLEscape":
+		a := tr.expr(arg, env)
+		if a.typ.kind != kString {
+			gtFail("template.HTMLEscape of a %s", a.typ.name)
+		}
+		tr.fn.addAbstract(gtAbstract{name: "f_template_HTMLEscape", typ: "bstr -> bstr"})
+		val = ex{binds: a.binds, code: "(" + cur + " ++ (f_template_HTMLEscape " + a.code + "))", typ: tBuffer}
+	default:
+		a := tr.expr(arg, env)
+		if a.typ.kind != kString {
+			gtFail("%s of a %s", kind, a.typ.name)
+		}
+		val = ex{binds: a.binds, code: "(" + cur + " ++ " + a.code + ")", typ: tBuffer}
+	}
+	return tr.bindNew(env, name, val, false, next), true
+}
+
+func (tr *gtTr) regexpMethod(c *ast.CallExpr, env *venv) (ex, bool) {
+	sel, ok := c.Fun.(*ast.SelectorExpr)
+	if !ok || sel.Sel.Name != "ReplaceAllString" || len(c.Args) != 2 {
+		return ex{}, false
+	}
+	id, ok := unparen(sel.X).(*ast.Ident)
+	if !ok || env.lookup(id.Name) != nil {
+		return ex{}, false
+	}
+	vs, isVar := tr.p.vars[id.Name]
+	if !isVar {
+		return ex{}, false
+	}
+	var init ast.Expr
+	for i, n := range vs.Names {
+		if n.Name == id.Name && i < len(vs.Values) {
+			init = vs.Values[i]
+		}
+	}
+	mc, isCall := init.(*ast.CallExpr)
+	if !isCall || len(mc.Args) != 1 {
+		return ex{}, false
+	}
+	_ = vs
+	msel, isSel := mc.Fun.(*ast.SelectorExpr)
+	q, isId := func() (*ast.Ident, bool) {
+		if !isSel {
+			return nil, false
+		}
+		q, ok := msel.X.(*ast.Ident)
+		return q, ok
+	}()
+	vf := tr.p.varIn[id.Name]
+	if !isId || importOf(vf, q.Name) != "regexp" || msel.Sel.Name != "MustCompile" {
+		return ex{}, false
+	}
+	pv, _, okc := tr.g.constEval(tr.p, vf, mc.Args[0], -1, nil)
+	if !okc || pv.Kind() != constant.String {
+		gtFail("%s: the pattern of regexp.MustCompile is not a constant string", id.Name)
+	}
+	if assignedElsewhere(tr.p, id.Name) {
+		gtFail("package variable %s is assigned to somewhere in the package", id.Name)
+	}
+	patName := "src_" + tr.p.name + "_" + id.Name + "_pattern"
+	if _, done := tr.st.tables[patName]; !done {
+		tr.st.tables[patName] = tString
+		tr.st.pending = append(tr.st.pending, fmt.Sprintf("(* %s: var %s = regexp.MustCompile(%s): the pattern text *)\nDefinition %s : bstr := %s.\n",
+			tr.p.dir, id.Name, strings.ReplaceAll(gtExprTextLit(mc.Args[0]), "*)", "* )"), patName, bstrLit(constant.StringVal(pv))))
+	}
+	args, binds := tr.args(c.Args, env)
+	if args[0].typ.kind != kString || args[1].typ.kind != kString {
+		gtFail("%s.ReplaceAllString: arguments are not strings", id.Name)
+	}
+	pn := "re_" + id.Name + "_ReplaceAllString"
+	pos := tr.g.fset.Position(vs.Pos())
+	tr.fn.addAbstract(gtAbstract{name: pn, typ: "bstr -> bstr -> bstr", key: fmt.Sprintf("2:%s:%09d", filepath.Base(pos.Filename), pos.Offset)})
+	return ex{binds: binds, code: "(" + pn + " " + args[0].code + " " + args[1].code + ")", typ: tString}, true
+}
+
+// gtExprTextLit: a literal as it is written (for comments)
+func gtExprTextLit(e ast.Expr) string {
+	if bl, ok := e.(*ast.BasicLit); ok {
+		return bl.Value
+	}
+	return gtExprText(e)
+}
+
+// ifaceField: e is n.F with n a struct parameter (read only) and F a field whose type is an interface type of /repo.
+// Returns the stem m_n_F of the parameters that stand for it and the interface's declaration.
+func (tr *gtTr) ifaceField(e ast.Expr, env *venv) (stem string, p *gpkg, it *ast.InterfaceType, tname string, ok bool) {
+	defer func() {
+		if ok {
+			tr.ifaceKey = ""
+			sel := unparen(e).(*ast.SelectorExpr)
+			id := unparen(sel.X).(*ast.Ident)
+			pi := 999
+			for i, prm := range tr.fn.params {
+				if prm.goName == id.Name {
+					pi = i
+				}
+			}
+			fi := 999
+			if v := env.lookup(id.Name); v != nil {
+				for i, fl := range v.typ.fields {
+					if fl.name == sel.Sel.Name {
+						fi = i
+					}
+				}
+			}
+			tr.ifaceKey = fmt.Sprintf("1:%03d:%03d", pi, fi)
+		}
+	}()
+	sel, isSel := unparen(e).(*ast.SelectorExpr)
+	if !isSel {
+		return
+	}
+	id, isId := unparen(sel.X).(*ast.Ident)
+	if !isId {
+		return
+	}
+	v := env.lookup(id.Name)
+	if v == nil || v.typ.kind != kStruct || v.banned != "" {
+		return
+	}
+	for _, fl := range v.typ.fields {
+		if fl.name != sel.Sel.Name || fl.typ.kind != kOther || fl.typ.ndir == "" {
+			continue
+		}
+		p = tr.g.gtPkg(fl.typ.ndir)
+		ts := p.types[fl.typ.nname]
+		if ts == nil {
+			return
+		}
+		if it, isIt := ts.Type.(*ast.InterfaceType); isIt {
+			return "m_" + id.Name + "_" + fl.name, p, it, fl.typ.nname, true
+		}
+	}
+	return
+}
+
+// ifaceFieldNil: the flag "the interface field is nil" (a parameter of the translated function)
+func (tr *gtTr) ifaceFieldNil(e ast.Expr, env *venv) (string, bool) {
+	stem, _, _, _, ok := tr.ifaceField(e, env)
+	if !ok {
+		return "", false
+	}
+	tr.fn.addAbstract(gtAbstract{name: stem + "_nil", typ: "bool", key: tr.ifaceKey + ":0"})
+	return stem + "_nil", true
+}
+
+// ifaceFieldMethod: n.F.M() with no arguments: None (Go panics) when the field is nil, else the parameter m_n_F_M,
+// the value the method returns (a method that itself panics is outside what the parameter can say)
+func (tr *gtTr) ifaceFieldMethod(c *ast.CallExpr, env *venv) (ex, bool) {
+	sel, ok := c.Fun.(*ast.SelectorExpr)
+	if !ok || len(c.Args) != 0 {
+		return ex{}, false
+	}
+	stem, p, it, tname, ok := tr.ifaceField(sel.X, env)
+	if !ok {
+		return ex{}, false
+	}
+	var find func(p *gpkg, it *ast.InterfaceType, tname string, depth int) (*gtype, bool)
+	find = func(p *gpkg, it *ast.InterfaceType, tname string, depth int) (*gtype, bool) {
+		if depth > 8 {
+			return nil, false
+		}
+		for _, m := range it.Methods.List {
+			if len(m.Names) == 0 {
+				// an embedded interface of the same package
+				if eid, isId := m.Type.(*ast.Ident); isId {
+					if ts := p.types[eid.Name]; ts != nil {
+						if eit, isIt := ts.Type.(*ast.InterfaceType); isIt {
+							if t, ok := find(p, eit, eid.Name, depth+1); ok {
+								return t, true
+							}
+						}
+					}
+				}
+				continue
+			}
+			ft, isFn := m.Type.(*ast.FuncType)
+			if !isFn || len(m.Names) != 1 || m.Names[0].Name != sel.Sel.Name {
+				continue
+			}
+			if (ft.Params != nil && len(ft.Params.List) > 0) || ft.Results == nil || len(ft.Results.List) != 1 || len(ft.Results.List[0].Names) > 1 {
+				gtFail("interface method %s.%s is not of the form M() T", tname, sel.Sel.Name)
+			}
+			rt := tr.g.resolveType(p, p.typeIn[tname], ft.Results.List[0].Type, 0)
+			if !rt.supported() || rt.usesValue() {
+				gtFail("interface method %s.%s returns a %s", tname, sel.Sel.Name, rt.name)
+			}
+			return rt, true
+		}
+		return nil, false
+	}
+	rt, found := find(p, it, tname, 0)
+	if !found {
+		return ex{}, false
+	}
+	key := tr.ifaceKey
+	tr.fn.addAbstract(gtAbstract{name: stem + "_nil", typ: "bool", key: key + ":0"})
+	tr.fn.addAbstract(gtAbstract{name: stem + "_" + sel.Sel.Name, typ: rt.coq(), key: key + ":1" + sel.Sel.Name})
+	o := tr.fresh()
+	return ex{binds: []gbind{{o, fmt.Sprintf("if %s_nil then None else Some %s_%s", stem, stem, sel.Sel.Name)}}, code: o, typ: rt}, true
+}
+
+// sprintf: fmt.Sprintf with a constant format made of text, %%, and the verbs
+//
+//	%s  with a string / []byte argument: its bytes; with a field of /repo interface type that has String() string:
+//	    what String() returns, or fmt's "%!s(<nil>)" when the field is nil (fmt does not panic there)
+//	%d  with an integer argument: its decimal digits
+//	%q  with a string argument: strconv.Quote of it, the parameter f_strconv_Quote : bstr -> bstr
+//
+// (no flags, widths or argument indexes; the number of verbs must be the number of arguments).
+func (tr *gtTr) sprintf(c *ast.CallExpr, env *venv) ex {
+	if len(c.Args) == 0 {
+		gtFail("fmt.Sprintf: no format")
+	}
+	format := tr.constString(c.Args[0], env, "fmt.Sprintf")
+	args := c.Args[1:]
+	var parts []string
+	var binds []gbind
+	lit := ""
+	flush := func() {
+		if lit != "" {
+			parts = append(parts, bstrLit(lit))
+			lit = ""
+		}
+	}
+	ai := 0
+	for i := 0; i < len(format); i++ {
+		ch := format[i]
+		if ch != '%' {
+			lit += string(ch)
+			continue
+		}
+		i++
+		if i >= len(format) {
+			gtFail("fmt.Sprintf: the format ends in %%")
+		}
+		verb := format[i]
+		if verb == '%' {
+			lit += "%"
+			continue
+		}
+		if ai >= len(args) {
+			gtFail("fmt.Sprintf: more verbs than arguments")
+		}
+		arg := args[ai]
+		ai++
+		flush()
+		switch verb {
+		case 's':
+			if stem, p, it, tname, ok := tr.ifaceField(arg, env); ok {
+				key := tr.ifaceKey
+				if !ifaceHasString(p, it, 0) {
+					gtFail("fmt.Sprintf: %%s of a %s, which has no String() string", tname)
+				}
+				tr.fn.addAbstract(gtAbstract{name: stem + "_nil", typ: "bool", key: key + ":0"})
+				tr.fn.addAbstract(gtAbstract{name: stem + "_String", typ: "bstr", key: key + ":1String"})
+				parts = append(parts, "(if "+stem+"_nil then "+bstrLit("%!s(<nil>)")+" else "+stem+"_String)")
+				continue
+			}
+			a := tr.expr(arg, env)
+			if a.typ.kind != kString {
+				gtFail("fmt.Sprintf: %%s of a %s is outside the subset", a.typ.name)
+			}
+			binds = mergeBinds(binds, a.binds)
+			parts = append(parts, a.code)
+		case 'd':
+			a := tr.expr(arg, env)
+			if a.typ.kind != kInt {
+				gtFail("fmt.Sprintf: %%d of a %s", a.typ.name)
+			}
+			binds = mergeBinds(binds, a.binds)
+			parts = append(parts, "(dec_of_Z "+a.code+")")
+		case 'q':
+			a := tr.expr(arg, env)
+			if a.typ.kind != kString {
+				gtFail("fmt.Sprintf: %%q of a %s is outside the subset", a.typ.name)
+			}
+			tr.fn.addAbstract(gtAbstract{name: "f_strconv_Quote", typ: "bstr -> bstr"})
+			binds = mergeBinds(binds, a.binds)
+			parts = append(parts, "(f_strconv_Quote "+a.code+")")
+		default:
+			gtFail("fmt.Sprintf: the verb %%%c is outside the subset", verb)
+		}
+	}
+	flush()
+	if ai != len(args) {
+		gtFail("fmt.Sprintf: more arguments than verbs")
+	}
+	if len(parts) == 0 {
+		return ex{code: "(@nil N)", typ: tString}
+	}
+	code := parts[len(parts)-1]
+	for i := len(parts) - 2; i >= 0; i-- {
+		code = "(" + parts[i] + " ++ " + code + ")"
+	}
+	return ex{binds: binds, code: code, typ: tString}
+}
+
+// ifaceHasString: does the interface (with the interfaces of its package that it embeds) declare String() string?
+func ifaceHasString(p *gpkg, it *ast.InterfaceType, depth int) bool {
+	if depth > 8 {
+		return false
+	}
+	for _, m := range it.Methods.List {
+		if len(m.Names) == 0 {
+			if eid, isId := m.Type.(*ast.Ident); isId {
+				if ts := p.types[eid.Name]; ts != nil {
+					if eit, isIt := ts.Type.(*ast.InterfaceType); isIt && ifaceHasString(p, eit, depth+1) {
+						return true
+					}
+				}
+			}
+			continue
+		}
+		ft, isFn := m.Type.(*ast.FuncType)
+		if !isFn || len(m.Names) != 1 || m.Names[0].Name != "String" {
+			continue
+		}
+		if (ft.Params == nil || len(ft.Params.List) == 0) && ft.Results != nil && len(ft.Results.List) == 1 {
+			if id, ok := ft.Results.List[0].Type.(*ast.Ident); ok && id.Name == "string" {
+				return true
+			}
+		}
+	}
+	return false
+}
+
+// stringerList: e is n.F, a field of a struct parameter whose type is a slice of nodes -- of a /repo interface type with
+// String() string, or of pointers to a /repo struct type with a String method.  The field enters the translation as
+// the parameter ms_n_F_String : list (option bstr), what each element's String() returns (None: a nil element).
+func (tr *gtTr) stringerList(e ast.Expr, env *venv) (ex, bool) {
+	sel, isSel := unparen(e).(*ast.SelectorExpr)
+	if !isSel {
+		return ex{}, false
+	}
+	id, isId := unparen(sel.X).(*ast.Ident)
+	if !isId {
+		return ex{}, false
+	}
+	v := env.lookup(id.Name)
+	if v == nil || v.typ.kind != kStruct || v.banned != "" {
+		return ex{}, false
+	}
+	for fi, fl := range v.typ.fields {
+		if fl.name != sel.Sel.Name || fl.typ.kind != kSlice || fl.typ.elem == nil || fl.typ.elem.ndir == "" {
+			continue
+		}
+		et := fl.typ.elem
+		p := tr.g.gtPkg(et.ndir)
+		okT := false
+		switch et.kind {
+		case kOther:
+			if ts := p.types[et.nname]; ts != nil {
+				if it, isIt := ts.Type.(*ast.InterfaceType); isIt && ifaceHasString(p, it, 0) {
+					okT = true
+				}
+			}
+		case kStruct:
+			if fd, has := p.funcs[et.nname+".String"]; has && fd.Type.Params.NumFields() == 0 {
+				okT = true
+			}
+		}
+		if !okT {
+			return ex{}, false
+		}
+		pi := 999
+		for i, prm := range tr.fn.params {
+			if prm.goName == id.Name {
+				pi = i
+			}
+		}
+		name := "ms_" + id.Name + "_" + fl.name + "_String"
+		tr.listKey = fmt.Sprintf("1:%03d:%03d", pi, fi)
+		tr.fn.addAbstract(gtAbstract{name: name, typ: "list (option bstr)", key: tr.listKey + ":2String"})
+		return ex{code: name, typ: &gtype{kind: kSlice, name: fl.typ.name, elem: tStringer, valueKind: -1}}, true
 	}
 	return ex{}, false
 }
